@@ -8,6 +8,8 @@ import (
 	"encoding/json"
 	"fmt"
 	"hash/fnv"
+	"math"
+	"math/bits"
 	"os"
 	"path/filepath"
 	"regexp"
@@ -122,6 +124,10 @@ type Check struct {
 		sync.Mutex
 		m map[uint64]struct{}
 	}
+	distinctN  atomic.Int64
+	hllOn      atomic.Bool
+	hllMu      sync.Mutex
+	hll        [65536]atomic.Uint32
 	known      []*KnownFinding
 	knownOnce  sync.Once
 	knownHits  map[*KnownFinding]int
@@ -177,13 +183,72 @@ func (c *Check) Nontrivial(key ...string) {
 		h.Write([]byte{0})
 	}
 	v := h.Sum64()
+	if c.hllOn.Load() {
+		c.hllAdd(v)
+		return
+	}
 	s := &c.distinct[v&255]
 	s.Lock()
+	before := len(s.m)
 	s.m[v] = struct{}{}
+	grew := len(s.m) > before
 	s.Unlock()
+	if grew && c.distinctN.Add(1) > distinctExactCap {
+		c.toHLL()
+	}
+}
+
+// Above distinctExactCap distinct keys the exact sets (40 bytes per key) are replaced by a
+// HyperLogLog sketch with 2^16 registers (standard error 0.4 %); the evidence then says that the
+// figure is an estimate. It is a coverage figure only, no verdict depends on it.
+const distinctExactCap = 30_000_000
+
+func (c *Check) hllAdd(v uint64) {
+	idx := v >> 48
+	rank := uint8(bits.LeadingZeros64(v<<16|1<<15)) + 1
+	for {
+		old := c.hll[idx].Load()
+		if uint32(rank) <= old || c.hll[idx].CompareAndSwap(old, uint32(rank)) {
+			return
+		}
+	}
+}
+
+func (c *Check) toHLL() {
+	c.hllMu.Lock()
+	defer c.hllMu.Unlock()
+	if c.hllOn.Load() {
+		return
+	}
+	for i := range c.distinct {
+		s := &c.distinct[i]
+		s.Lock()
+		for v := range s.m {
+			c.hllAdd(v)
+		}
+		s.m = map[uint64]struct{}{}
+		s.Unlock()
+	}
+	c.hllOn.Store(true)
 }
 
 func (c *Check) nontrivialCount() uint64 {
+	if c.hllOn.Load() {
+		const m = 65536.0
+		sum, zeros := 0.0, 0
+		for i := range c.hll {
+			r := c.hll[i].Load()
+			sum += math.Pow(2, -float64(r))
+			if r == 0 {
+				zeros++
+			}
+		}
+		e := 0.7213 / (1 + 1.079/m) * m * m / sum
+		if e <= 2.5*m && zeros > 0 {
+			e = m * math.Log(m/float64(zeros))
+		}
+		return uint64(e)
+	}
 	var n uint64
 	for i := range c.distinct {
 		n += uint64(len(c.distinct[i].m))
@@ -448,6 +513,9 @@ func (c *Check) writeEvidence(violations int, knownHits map[*KnownFinding]int) {
 	}
 	cov["evaluations"] = c.evals.Load()
 	cov["distinct_nontrivial"] = c.nontrivialCount()
+	if c.hllOn.Load() {
+		cov["distinct_nontrivial_is_an_estimate"] = "more than 30 million distinct keys: HyperLogLog estimate (standard error 0.4 %)"
+	}
 	cov["rule"] = c.Rule
 	if len(c.samples) == 0 {
 		c.samples = append(c.samples, "no sample recorded")
